@@ -218,6 +218,8 @@ pub struct RelayEvent {
     pub replay_of: Option<usize>,
     /// for events of another group than the world's main one
     pub other_group: bool,
+    /// the members of the group as the author saw them when it created the event
+    pub roster_at_send: Vec<String>,
 }
 
 #[derive(Clone, Debug)]
@@ -411,6 +413,10 @@ pub struct Setup {
     pub cfg: Cfg,
     pub regime: Regime,
     pub with_reference: bool,
+    /// make the last initial member a passive, non-admin SQLite client and mirror every
+    /// delivery to a never-restarted twin opened on a copy of its database (C11)
+    #[serde(default)]
+    pub twin: bool,
 }
 
 #[derive(Clone, Debug, PartialEq, Eq, Hash, Serialize, Deserialize)]
@@ -511,6 +517,7 @@ pub struct World {
     pub n_members: usize,
     pub reference: Option<usize>,
     pub first_spare: usize,
+    pub end_spare: usize,
     pub gid: GroupId,
     /// further groups some clients are in (for cross-group checks)
     pub extra_gids: Vec<GroupId>,
@@ -531,6 +538,12 @@ pub struct World {
     pub debug_logs: bool,
     /// incremented for every delivery (finer than `step`)
     pub delivery_seq: usize,
+    /// clients that never act locally (they only receive)
+    pub passive: HashSet<usize>,
+    /// (restarting client, its never-restarted twin)
+    pub twin: Option<(usize, usize)>,
+    pub twin_checks: u64,
+    pub twin_excused: u64,
 }
 
 pub fn relay_url(n: u8) -> RelayUrl {
@@ -592,6 +605,8 @@ impl World {
         for i in 0..total {
             let kind = if setup.with_reference && i == n_members {
                 BackendKind::Mem
+            } else if setup.twin && n_members >= 2 && i == n_members - 1 {
+                BackendKind::Sql
             } else {
                 *setup.backends.get(i).unwrap_or(&BackendKind::Mem)
             };
@@ -637,6 +652,9 @@ impl World {
         }
         let mut admins = vec![clients[0].keys.public_key()];
         for i in 1..n_members {
+            if setup.twin && i == n_members - 1 {
+                continue; // the twinned client is never an admin
+            }
             if setup.admin_mask & (1 << (i - 1)) != 0 {
                 admins.push(clients[i].keys.public_key());
             }
@@ -664,6 +682,7 @@ impl World {
                 None
             },
             first_spare: n_members + n_ref,
+            end_spare: n_members + n_ref + setup.spares as usize,
             gid,
             extra_gids: vec![],
             relay: vec![],
@@ -684,6 +703,10 @@ impl World {
             strict: false,
             debug_logs: std::env::var("VCHECK_LOGS").is_ok(),
             delivery_seq: 0,
+            passive: HashSet::new(),
+            twin: None,
+            twin_checks: 0,
+            twin_excused: 0,
         };
         // deliver the initial welcomes
         for (k, rumor) in res.welcome_rumors.iter().enumerate() {
@@ -697,6 +720,43 @@ impl World {
         }
         for i in 0..(w.n_members + n_ref) {
             w.refresh(i);
+        }
+        if setup.twin && w.n_members >= 2 {
+            let k = w.n_members - 1;
+            let src = w.clients[k].db_path.clone().ok_or("twin subject has no database")?;
+            let dst = w.dir.0.join("twin.db");
+            std::fs::copy(&src, &dst).map_err(|e| format!("copy database for the twin: {e}"))?;
+            let recorder = Arc::new(RollbackRecorder::default());
+            let mdk = open_client_mdk(BackendKind::Sql, Some(&dst), &setup.cfg, recorder.clone())?;
+            let t = w.clients.len();
+            let keys = w.clients[k].keys.clone();
+            w.clients.push(Client {
+                idx: t,
+                keys,
+                kind: BackendKind::Sql,
+                db_path: Some(dst),
+                cfg: setup.cfg.clone(),
+                mdk: Some(mdk),
+                recorder,
+                cur: None,
+                reached: HashSet::new(),
+                entered_at: HashMap::new(),
+                pending_props: vec![],
+                props_by_state: HashMap::new(),
+                own_pending: None,
+                delivered: HashMap::new(),
+                immediate: vec![],
+                restarts: vec![],
+                rollbacks: vec![],
+                rollbacks_seen: 0,
+                applied: vec![],
+                evicted_at: None,
+                evicted_by: None,
+                key_packages: vec![],
+            });
+            w.refresh(t);
+            w.passive.insert(k);
+            w.twin = Some((k, t));
         }
         w.s0 = w.clients[0]
             .cur
@@ -748,7 +808,7 @@ impl World {
     /// indices of clients that may act (everything except the reference replica)
     pub fn actors(&self) -> Vec<usize> {
         (0..self.clients.len())
-            .filter(|i| Some(*i) != self.reference)
+            .filter(|i| Some(*i) != self.reference && self.twin.map(|(_, t)| t) != Some(*i))
             .collect()
     }
 
@@ -857,6 +917,11 @@ impl World {
         auto_commit: bool,
     ) -> usize {
         let idx = self.relay.len();
+        let roster = if self.clients[author].mdk.is_some() {
+            self.local_members(author)
+        } else {
+            vec![]
+        };
         self.note(format!(
             "publish #{idx} by c{author} {class:?} base={} ts=+{} {what}",
             base.as_ref().map(|b| b.short()).unwrap_or_default(),
@@ -877,6 +942,7 @@ impl World {
             forged: None,
             replay_of: None,
             other_group: false,
+            roster_at_send: roster,
         });
         idx
     }
@@ -960,7 +1026,7 @@ impl World {
     pub fn active_actors(&self) -> Vec<usize> {
         self.actors()
             .into_iter()
-            .filter(|&i| self.clients[i].cur.is_some())
+            .filter(|&i| self.clients[i].cur.is_some() && !self.passive.contains(&i))
             .collect()
     }
 
@@ -1133,11 +1199,14 @@ impl World {
                             return Ok(());
                         };
                         let target = members[k].clone();
-                        // never make the reference replica an admin
+                        // never make the reference replica (or a twinned, passive client) an admin
                         if let Some(r) = self.reference {
                             if self.clients[r].pk_hex() == target {
                                 return Ok(());
                             }
+                        }
+                        if self.passive.iter().any(|&p| self.clients[p].pk_hex() == target) {
+                            return Ok(());
                         }
                         let cur = on_mdk!(self.clients[m].mdk(), mm => mm.get_group(&gid))
                             .ok()
@@ -1194,7 +1263,7 @@ impl World {
                     return Ok(());
                 };
                 // next spare that was never invited
-                let spare = (self.first_spare..self.clients.len())
+                let spare = (self.first_spare..self.end_spare)
                     .find(|i| !self.invited.contains(i) && self.clients[*i].mdk.is_some());
                 let Some(j) = spare else {
                     return Ok(());
@@ -1468,7 +1537,7 @@ impl World {
 
     fn outsider_key_package(&mut self) -> Option<(usize, openmls::prelude::KeyPackage)> {
         // an identity that is not in the group from anybody's point of view
-        let j = (self.first_spare..self.clients.len())
+        let j = (self.first_spare..self.end_spare)
             .find(|i| !self.invited.contains(i) && self.clients[*i].mdk.is_some())?;
         let ev = Self::make_key_package(&self.clients[j]).ok()?;
         let kp = on_mdk!(self.clients[j].mdk(), mm => mm.parse_key_package(&ev)).ok()?;
@@ -1684,6 +1753,12 @@ impl World {
         if self.clients[m].kind != BackendKind::Sql {
             return Ok(());
         }
+        let before = self.full_all(m).iter().map(|f| f.without_clock()).collect::<Vec<_>>();
+        let pending_before: Vec<String> = on_mdk!(self.clients[m].mdk(), mm => mm.get_pending_welcomes(None))
+            .unwrap_or_default()
+            .iter()
+            .map(|w| w.id.to_hex())
+            .collect();
         let c = &mut self.clients[m];
         c.mdk = None; // drops MDK and storage, closing the connection
         let recorder = c.recorder.clone();
@@ -1700,6 +1775,30 @@ impl World {
         self.clients[m].restarts.push(step);
         self.count("op:restart");
         self.note(format!("c{m} restarted"));
+        let after = self.full_all(m).iter().map(|f| f.without_clock()).collect::<Vec<_>>();
+        if before != after {
+            let d = before
+                .iter()
+                .zip(after.iter())
+                .map(|(b, a)| crate::oracles::diff_full(b, a))
+                .collect::<Vec<_>>()
+                .join(" | ");
+            return Err(Failure::new(
+                "restart-changed-observable-state",
+                format!("c{m}: closing and reopening the database changed what the API shows: {d}"),
+            ));
+        }
+        let pending_after: Vec<String> = on_mdk!(self.clients[m].mdk(), mm => mm.get_pending_welcomes(None))
+            .unwrap_or_default()
+            .iter()
+            .map(|w| w.id.to_hex())
+            .collect();
+        if pending_before != pending_after {
+            return Err(Failure::new(
+                "restart-changed-observable-state",
+                format!("c{m}: pending welcomes {pending_before:?} -> {pending_after:?}"),
+            ));
+        }
         Ok(())
     }
 
@@ -1910,6 +2009,9 @@ impl World {
         if self.clients[m].cur.is_some() {
             self.clients[m].evicted_by = None;
         }
+        if self.twin.map(|(_, t)| t) == Some(m) {
+            emitted = None; // a twin never publishes
+        }
         if let Some(u) = emitted {
             let what = format!("auto-commit of proposal #{idx}");
             let b = self.clients[m].cur.clone();
@@ -1948,6 +2050,38 @@ impl World {
                 String::new()
             }
         ));
+        if let Some((k, t)) = self.twin {
+            if m == k {
+                let tout = self.deliver(t, idx, &mut NoObserver)?;
+                if self.twin_excused == 0 {
+                    self.twin_checks += 1;
+                    let a = self.full(k).without_clock();
+                    let b = self.full(t).without_clock();
+                    if a != b {
+                        // O8: the never-restarted twin can still resolve the race by rollback
+                        let fired = |c: &Client| c.rollbacks.iter().any(|r| r.step == self.step && r.head == self.relay[idx].ev.id);
+                        let o8 = fired(&self.clients[t]) && !fired(&self.clients[k]) && !self.clients[k].restarts.is_empty();
+                        let detail = format!(
+                            "after event #{idx} ({}) c{k} (restarted {} time(s), outcome {}) and its twin (never restarted, outcome {}) differ: {}",
+                            self.relay[idx].what,
+                            self.clients[k].restarts.len(),
+                            outcome.tag(),
+                            tout.tag(),
+                            crate::oracles::diff_full(&b, &a)
+                        );
+                        if o8 && !self.strict {
+                            // from here on the two legitimately (by the listed finding) differ
+                            self.twin_excused = 1;
+                            self.count("excused:O8-restart-forgets-commit-timestamps");
+                        } else if o8 {
+                            return Err(Failure::new("twin-differs:O8-restart-forgets-commit-timestamps", detail));
+                        } else {
+                            return Err(Failure::new("restarted-client-differs-from-never-restarted-twin", detail));
+                        }
+                    }
+                }
+            }
+        }
         if let Outcome::Panic(p) = &outcome {
             self.panics.push(format!("process_message(#{idx}) at c{m}: {p}"));
             return Err(Failure::new(
